@@ -222,6 +222,10 @@ func solveAll(results []*OblResult, timeoutS int, workers int, order []int) {
 }
 
 func main() {
+	if f := os.Getenv("GOVC_TRACE"); f != "" {
+		out, _ := os.Create(f)
+		smt.TraceCreate = func(id int, key string) { fmt.Fprintf(out, "%d %s\n", id, key) }
+	}
 	if len(os.Args) < 2 {
 		fmt.Fprintln(os.Stderr, "usage: govc verify|check|list ...")
 		os.Exit(2)
